@@ -810,7 +810,7 @@ func (vfs *OrefaFS) Rename(oldname, newname string) error {
 		defer oParent.mu.Unlock()
 	}
 
-	nParent.children[nFileName] = oChild
+	nParent.addChild(nFileName, oChild)
 
 	delete(oParent.children, oFileName)
 
